@@ -420,6 +420,24 @@ def H4_debits(ctx):
     rp = [a for p in ps for a in p.events if a.kind == 'atom' and a.d['term'][0] == 'call' and a.d['term'][1].endswith('is_root_value_transfer')]
     ctx.ob('H4', f, 'debit-scan', n >= 1 and kinds == {'BalanceTransfer', 'AccountDestroyed'} and rp and not bad, f'first-debit inserts={n} sources={sorted(kinds)} root-transfer test={bool(rp)} {bad[:2]}', site=f.loc(f.b['lo']),
            what='surviving journal entries after the checkpoint are scanned; the root value transfer is excluded once; sources are BalanceTransfer.from and AccountDestroyed.address; only sources whose code is an EIP-7702 designator are kept, and the FIRST debit index is kept (or_insert)')
+    # the root transfer is excluded ONCE: a second surviving transfer of the same shape (the delegated code re-entered and moved
+    # exactly tx.value again) is a delegated debit like any other.  Decided over two loop iterations.
+    twice = once_then_more = 0
+    try:
+        ps3 = [p for p in f.paths(max_visits=3, budget=400000) if p.end in ('return', 'cut')]
+    except PathBudget:
+        ps3 = None
+    if ps3 is not None:
+        for p in ps3:
+            tr = [i for i, a in enumerate(p.events) if a.kind == 'atom' and bool_fact(a) and bool_fact(a)[1] is True and bool_fact(a)[0][0] == 'call'
+                  and bool_fact(a)[0][1].endswith('is_root_value_transfer')]
+            if len(tr) >= 2:
+                twice += 1
+            if len(tr) == 1 and [a for a in p.events[tr[0]:] if a.kind == 'atom' and a.d['term'][0] == 'discr' and a.d['term'][1][0] == 'call' and a.d['term'][1][1].endswith('::next') and a.d['outcome'] == 'Some']:
+                once_then_more += 1
+    ctx.ob('H4', f, 'root-transfer-excluded-at-most-once', ps3 is not None and twice == 0 and once_then_more >= 1,
+           f'paths excluding two root-shaped transfers={twice}; paths that exclude one and go on scanning={once_then_more}', site=f.loc(f.b['lo']),
+           what='only the single top-level tx.value transfer is outside the policy; excluding every transfer of that shape hides a re-entrant delegated debit of exactly tx.value')
     ctx.ob('H4', f, 'designator-test-is-eip7702-code', n_designator[0] >= 1, f'{n_designator[0]} recorded source(s) guarded by Bytecode::is_eip7702 on their own code', site=f.loc(f.b['lo']))
     r = ctx.fn('delegated_safety::reserve::is_root_value_transfer')
     okr = False
